@@ -752,6 +752,11 @@ class HostInterp:
             if len(e.args) == 2:
                 return self.ev(e.args[1], env)
             raise Raised("StopIteration")
+        if d == "next" and len(e.args) == 2:
+            it = self.ev(e.args[0], env)
+            if hasattr(it, "__next__"):
+                return next(it, self.ev(e.args[1], env))
+            raise AnalysisError("interpretation: next() of something that is no iterator")
         if d == "next" and len(e.args) == 1:
             try:
                 it = self.ev(e.args[0], env)
